@@ -187,6 +187,7 @@ type Machine struct {
 	access       map[raceKey]*accessRec
 	raceDetect    bool
 	noAdvanceNext bool
+	rtypes        map[string]*Opaque
 }
 
 func (m *Machine) end(kind endKind, format string, args ...interface{}) {
